@@ -130,6 +130,8 @@ def gen(seed, index):
             p = ["same"]
         elif t in ("int", "str-int"):
             p = [t, rng.randint(1, 240) if which == "parse_t" else rng.randint(0, 20)]
+            if t == "str-int" and which == "parse_d" and rng.random() < 0.15:
+                p[1] = -p[1]              # "-3": a negative duration string
         elif t in ("float", "frac", "str-float"):
             p = [t, ["q", q.numerator, q.denominator]]
         elif t == "str-frac":
